@@ -666,6 +666,63 @@ func TestVerifC19Timeouts(t *testing.T) {
 	})
 }
 
+// A hook that never answers, under the timeouts a spec can leave to the default: unset, 0s and a negative value
+// (the CRD validates the format only). Every one of them is bounded by the documented 10 s default: the call ends
+// in an error instead of holding a worker - or a per-revision goroutine - for good.
+func TestVerifC19DefaultTimeout(t *testing.T) {
+	vs.RunFixed(t, "C19", map[string]func() error{
+		"never-answering-hook-under-unset-zero-and-negative-timeout": func() error {
+			release := make(chan struct{})
+			srv := httptest.NewServer(http.HandlerFunc(func(w http.ResponseWriter, r *http.Request) {
+				select {
+				case <-release:
+				case <-r.Context().Done():
+				}
+			}))
+			defer srv.Close()
+			defer close(release)
+			url := srv.URL + "/sync"
+			type outcome struct {
+				name string
+				err  error
+				took time.Duration
+				done bool
+			}
+			cfgs := map[string]*metav1.Duration{"unset": nil, "0s": {Duration: 0}, "-5s": {Duration: -5 * time.Second}}
+			results := make(chan outcome, len(cfgs))
+			for name, d := range cfgs {
+				name, d := name, d
+				c19TimeoutSeq++
+				wh := &v1alpha1.Webhook{URL: &url, Timeout: d}
+				ex, err := NewWebhookExecutor(wh, fmt.Sprintf("c19-deftimeout-%d-%d", os.Getpid(), c19TimeoutSeq), common.CompositeController, common.SyncHook)
+				if err != nil {
+					return fmt.Errorf("harness: %v", err)
+				}
+				go func() {
+					start := time.Now()
+					var got c19Resp
+					err := ex.Call(c19Parent(), &got)
+					results <- outcome{name: name, err: err, took: time.Since(start), done: true}
+				}()
+			}
+			deadline := time.After(16 * time.Second)
+			seen := 0
+			for seen < len(cfgs) {
+				select {
+				case o := <-results:
+					seen++
+					if o.err == nil {
+						return vs.Violf("C19/timeout-not-enforced", "timeout %s: the hook never answered, yet the call succeeded after %v", o.name, o.took)
+					}
+				case <-deadline:
+					return vs.Violf("C19/timeout-not-enforced", "the hook never answers; with the webhook timeout left to the 10 s default (unset, 0s, -5s) %d of %d calls are still pending after 16 s", len(cfgs)-seen, len(cfgs))
+				}
+			}
+			return nil
+		},
+	})
+}
+
 // ---- part 4: ETag support follows the webhook's configuration (real constructor, loopback server) ----
 
 func TestVerifC19EtagConfig(t *testing.T) {
